@@ -97,8 +97,10 @@ def run(chk, replay):
     npoints = 0
     for dll, name, sc in shapes(chk.tier):
         spec = "Tp21Trace" if dll == "j1939-21" else "Tp22Trace"
-        _, _, p0 = preempt.run(sc)
-        pts = sorted(set(p0.points))
+        tr0, _, p0 = preempt.run(sc)
+        # pre-emption points = lines executed DURING the transfer (not the idle polls of the job thread after it)
+        t_act = max(e["t"] for e in tr0["ev"] if e["ev"] in ("tx", "rx", "cb")) + 1000
+        pts = sorted(p for p in set(p0.points) if p0.point_time[p] <= t_act)
         npoints += len(pts)
         traces = []
         for i, pt in enumerate(pts):
